@@ -478,6 +478,10 @@ func (c *Client) handleSessionMessage(addr *net.UDPAddr, msg []byte) error {
 		return nil
 	}
 
+	if PlaintextLen(len(msg)) < 0 {
+		return ErrInvalidMessage
+	}
+
 	// TODO(dadrian): Can we avoid this allocation?
 	plaintext := make([]byte, PlaintextLen(len(msg)))
 	_, mt, err := c.ss.readPacketLocked(plaintext, msg, c.ss.readKey)
